@@ -3,6 +3,7 @@ package handlers
 import (
 	"context"
 	"fmt"
+	"grog/internal/verifhook"
 	"io"
 	"os"
 	"path/filepath"
@@ -77,6 +78,7 @@ func (f *FileOutputHandler) Write(
 	}
 
 	console.GetLogger(ctx).Debugf("writing file output %s with digest %s", absOutputPath, fileHash)
+	verifhook.Point("file.write.cas", absOutputPath)
 	if err := f.cas.Write(ctx, fileHash, reader); err != nil {
 		return nil, err
 	}
@@ -122,6 +124,7 @@ func (f *FileOutputHandler) Load(
 	}
 
 	console.GetLogger(ctx).Debugf("loading file output %s with digest %s", absOutputPath, output.GetFile().GetDigest().GetHash())
+	verifhook.Point("file.load.cas", absOutputPath)
 	contentReader, err := f.cas.Load(ctx, output.GetFile().GetDigest().GetHash())
 	if err != nil {
 		return err
@@ -132,6 +135,7 @@ func (f *FileOutputHandler) Load(
 		reader = progress.WrapReader(contentReader)
 	}
 
+	verifhook.Point("file.load.create", absOutputPath)
 	outputFile, err := os.Create(absOutputPath)
 	if err != nil {
 		return err
